@@ -24,7 +24,7 @@ import (
 var twinKinds = map[string]int{
 	"cb_notdone": 2, "cb_unknown": 2, "az_err": 6, "az_noredirect": 3, "tok_err": 8, "cred_err": 6, "dead_tok": 4, "es_err": 3,
 	// not refusals, but judged the same way: requests to the providers that share the process (variant = the provider asked)
-	"devauth": 4, "xdisc": 3,
+	"devauth": 4, "xdisc": 3, "xtoken": 4,
 }
 
 // variants of twin kinds that need the pools of setup (not run in a cold case)
@@ -283,6 +283,19 @@ func (e *env) errOp(o Op, tag string, part int, sync func()) (obs, msg string) {
 			return d.norm(), "NOT-OWN-CONFIG " + name + ": " + strings.Join(l, "; ")
 		}
 		return d.norm(), ""
+	case "xtoken":
+		// the provider asked (variant 0: the shared one, else a side provider) issues a JWT access token and publishes its key
+		// set while the other providers of the process sign tokens of their own: the token verifies with THAT key set
+		name, pag := e.provFor(v, part)
+		sync()
+		switch why := ownKeysProblem(pag, name); {
+		case why == "":
+			return name + ": a token issued now verifies with the key set published now", ""
+		case strings.HasPrefix(why, "PANIC"), strings.HasPrefix(why, "unavailable:"):
+			return why, why
+		default:
+			return why, "NOT-OWN-KEYS " + why
+		}
 	case "xdisc":
 		// discovery document (or key set) of a provider with another configuration living in the same process
 		pag, pcfg, name := ag, e.c.Cfg, "the shared provider"
